@@ -467,3 +467,36 @@ def run_endpoint(inp):
   if not rec["request_unchanged"]:
     rec["request_diff"] = diff_snap(before, after) or diff_snap(before, mid)
   return rec
+
+def run_other_endpoint(inp, which):
+  """The remaining model-based endpoints on the same request: "hyperopt" (GpHyperOptMultimetricView, real SLSQP with two multistarts),
+  "ei" (GpEiCategoricalView at the pending points as evaluation points), "best" (MultisolutionBestAssignments).  Only the clause 'every
+  endpoint call leaves the request data (points, values, variances, failures, hyperparameters) unchanged' is decided here."""
+  import dataclasses as _dc
+  numpy.random.seed(inp["seed"])
+  params = build_request(inp)
+  if which == "ei":
+    from libsigopt.aux.adapter_info_containers import PointsContainer
+    from libsigopt.views.rest.gp_ei_categorical import GpEiCategoricalView as cls
+    pts = numpy.array(params["points_sampled"].points[:2], dtype=float)
+    params["points_to_evaluate"] = PointsContainer(points=pts, task_costs=(numpy.array(params["points_sampled"].task_costs[:2], dtype=float)
+                                                                            if params["points_sampled"].task_costs is not None else None))
+  elif which == "hyperopt":
+    import libsigopt.views.rest.gp_hyper_opt_multimetric as H
+    cls = H.GpHyperOptMultimetricView
+    saved = H.DEFAULT_HYPER_OPT_OPTIMIZER_INFO
+    H.DEFAULT_HYPER_OPT_OPTIMIZER_INFO = saved._replace(num_multistarts=2) if hasattr(saved, "_replace") else _dc.replace(saved, num_multistarts=2)
+  else:
+    from libsigopt.views.rest.multisolution_best_assignments import MultisolutionBestAssignments as cls
+    params["num_solutions"] = 2
+  before = request_fields(params)
+  err = None
+  try:
+    cls(params).view()
+  except Exception as e:   # whether the call succeeds is other properties' business; the request must be untouched either way
+    err = f"{type(e).__name__}: {e}"
+  finally:
+    if which == "hyperopt":
+      H.DEFAULT_HYPER_OPT_OPTIMIZER_INFO = saved
+  after = request_fields(params)
+  return dict(error=err, request_unchanged=before == after, request_diff=None if before == after else diff_snap(before, after))
